@@ -16,7 +16,6 @@ import (
 	"fmt"
 	"math/rand"
 	"runtime"
-	"sort"
 	"strings"
 	"sync"
 	"time"
@@ -76,12 +75,45 @@ type wentry struct {
 type twin struct {
 	now   int64
 	wait  map[int]*wentry
+	heap  []int // the items of `wait` in the order of client-go's waitForPriorityQueue (container/heap, at most two entries)
 	fifo  []int
 	dirty map[int]bool
 	proc  bool
 	pitem int
 	pend  int64
 	seq   int
+}
+
+// insert is delaying_queue.go insert(): one entry per item, the earliest deadline wins; the
+// position in the heap follows container/heap (Push: append + up; Fix: up / down), which
+// for at most two entries means: the second one goes to the root only when strictly earlier.
+func (tw *twin) insert(item int, deadline int64) {
+	if e, ok := tw.wait[item]; ok {
+		if deadline < e.deadline {
+			e.deadline = deadline
+			if len(tw.heap) == 2 && tw.heap[1] == item && deadline < tw.wait[tw.heap[0]].deadline {
+				tw.heap[0], tw.heap[1] = tw.heap[1], tw.heap[0]
+			}
+		}
+		return
+	}
+	tw.seq++
+	tw.wait[item] = &wentry{deadline: deadline, seq: tw.seq}
+	tw.heap = append(tw.heap, item)
+	if n := len(tw.heap); n == 2 && deadline < tw.wait[tw.heap[0]].deadline {
+		tw.heap[0], tw.heap[1] = tw.heap[1], tw.heap[0]
+	}
+}
+
+// pop removes the entry of an item that fired (always the root).
+func (tw *twin) pop(item int) {
+	delete(tw.wait, item)
+	for k, x := range tw.heap {
+		if x == item {
+			tw.heap = append(tw.heap[:k], tw.heap[k+1:]...)
+			break
+		}
+	}
 }
 
 func (tw *twin) add(i int) {
@@ -99,19 +131,8 @@ func (tw *twin) add(i int) {
 // Timers go first among the events of one instant: the real waiting loop fires as soon as
 // the (fake) clock shows the deadline, whatever the harness meant to do at that instant.
 func (tw *twin) due() (kind string, item int, at int64, ok bool) {
-	var ws []int
-	for i := range tw.wait {
-		ws = append(ws, i)
-	}
-	sort.Slice(ws, func(a, b int) bool {
-		x, y := tw.wait[ws[a]], tw.wait[ws[b]]
-		if x.deadline != y.deadline {
-			return x.deadline < y.deadline
-		}
-		return x.seq < y.seq
-	})
-	if len(ws) > 0 {
-		kind, item, at, ok = "fire", ws[0], tw.wait[ws[0]].deadline, true
+	if len(tw.heap) > 0 {
+		kind, item, at, ok = "fire", tw.heap[0], tw.wait[tw.heap[0]].deadline, true
 	}
 	if tw.proc {
 		if !ok || tw.pend < at {
@@ -246,13 +267,8 @@ func (r *qrun) arrive(t int64, item int) {
 	d := r.lastD
 	if d <= 0 {
 		r.tw.add(item)
-	} else if e, ok := r.tw.wait[item]; ok {
-		if t+d < e.deadline {
-			e.deadline = t + d
-		}
 	} else {
-		r.tw.seq++
-		r.tw.wait[item] = &wentry{deadline: t + d, seq: r.tw.seq}
+		r.tw.insert(item, t+d)
 	}
 	r.record(qevent{T: t, Ev: "arrive", Item: item}, -1)
 }
@@ -260,7 +276,7 @@ func (r *qrun) arrive(t int64, item int) {
 func (r *qrun) internal(kind string, item int, at int64, dur int64) {
 	switch kind {
 	case "fire":
-		delete(r.tw.wait, item)
+		r.tw.pop(item)
 		r.tw.now = at
 		r.tw.add(item)
 		r.setTime(at)
